@@ -9,9 +9,22 @@ C11 — driver: replays an implementation history through
 
 cfg:  kind=bulk|chunk max=<n> iv=<interval> P=<callers> gate=0|1 pm=<k>
 ops:  add <w> <x> | flush <w> | wait <w> | tick | rel <first task of batch> ok|panic | t+ <d> | drain
+      hold <w> full|notfull|removed|fremoved   arm caller w: it parks INSIDE the critical section (pe.lock held) the
+                                               next time it passes that point (AddTask said full / not full,
+                                               RemoveAll of addAndCheck done, RemoveAll of Flush done)
+      unhold <w>                               disarm and release caller w
+      hold bg fremoved | unhold bg             the same for the background flusher(s): parked inside the RemoveAll of
+                                               the tick / quit Flush
+      bhold <w>                                caller w takes pe.wgBarrier and parks inside it (skip if it is taken)
+      brel wait|flush|none                     that caller releases it and goes straight on with Wait / Flush / nothing
+      (a task is the number 8*id + byte size; only the chunk executor looks at the size)
 obs:  [d=0|1] w=<class per caller> fl=<sorted classes of flushers> c=<container> cmd=<len> inf=<inflight>
       g=<guarded> cb=<batches inside the callback> nf=<tasks whose callback ended> [all=<…>]   | skip
+      [ends=<callback ends of this line in order> wret=<caller>:<k>,…]   only when a Wait returned in this line: it
+                                               returned after the first k of `ends` (monitor only, not compared)
+      | stuck moving=<state@frame,…>           the harness watchdog: no quiescence within its bound
 -/
+import Std.Data.HashSet
 import GoZero.Base.Trace
 import GoZero.C11.Spec
 namespace GoZero.C11
@@ -24,14 +37,33 @@ structure DCfg where
   auto : Bool      -- callbacks are not gated: they end by themselves
   pm   : Nat       -- ungated callbacks panic iff first task % pm = 3
 
-def chunkSize (x : Task) : Nat := x % 3 + 1
+def chunkSize (x : Task) : Nat := x % 8
 
 def classOf : Pc → String
   | .idle => "idle" | .aSend => "send" | .aConfirm => "confirm"
   | .fEnter _ => "enter" | .bEnter => "enter" | .bEnterF => "enter"
   | .wBarrier => "wbar" | .wWait => "wgwait" | .wSpin => "spin"
+  | .aLock _ => "alock" | .fLock _ => "flock" | .qLock => "qlock"
   | .fCall _ => "cb" | .bCall => "cb" | .bSelect _ => "select" | .bConfirm => "bconfirm"
   | _ => "moving"
+
+/-- hold points of the harness's container hook ↦ the pc at which the caller is parked (lock held) -/
+def holdPc (pt : String) (pc : Pc) : Bool :=
+  match pt, pc with
+  | "full", .aInc => true
+  | "notfull", .aGuard false => true
+  | "removed", .aGuard true => true
+  | "fremoved", .fUnlock _ => true
+  | _, _ => false
+
+abbrev Holds := List (Nat × String)
+
+/-- `bgHold` stands for "every background flusher" in the hold list -/
+def bgHold : Nat := 1000000
+
+def isHeld (holds : Holds) (t : Nat) (pc : Pc) : Bool :=
+  holds.any fun h => (h.1 == t || (h.1 == bgHold && (match pc with | .fUnlock .tick => true | .fUnlock .quit => true | _ => false)))
+    && holdPc h.2 pc
 
 def inCallback (pc : Pc) : Bool := match pc with | .fCall _ => true | .bCall => true | _ => false
 
@@ -42,16 +74,37 @@ def firstIdleFrom (s : St) (from_ : Nat) : Option Nat :=
 that differ only in the order of callback ends are one configuration -/
 def normGhost (s : St) : St := { s with finished := sortNat s.finished, lost := sortNat s.lost }
 
+/-- inside the critical section of pe.lock (the goroutine owns the lock) -/
+def inLockRegion : Pc → Bool
+  | .aAdd _ => true | .aInc => true | .aRemove => true | .aGuard _ => true | .aUnlock _ _ => true
+  | .fRemove _ => true | .fUnlock _ => true | .qCheck => true | .qUnlock _ => true
+  | _ => false
+
+/-- Reduction (Lipton): a critical section of pe.lock is lock (right mover) · accesses to variables that only
+the owner of the lock touches (both movers) · at most ONE access to the atomic `inflight` (aInc / qCheck) ·
+unlock (left mover), and never blocks: every schedule is equivalent to one in which the owner runs the rest of
+its critical section without interruption, with the same quiescent states.  So while some goroutine that is
+not parked at a hold point is inside the critical section, only it moves. -/
+def lockOwner (holds : Holds) (s : St) : Option Nat :=
+  if s.lock then
+    (List.range s.thr.length).find? fun t =>
+      match s.thr[t]? with
+      | some th => inLockRegion th.pc && !isHeld holds t th.pc
+      | none => false
+  else none
+
 /-- all successors by internal actions (what the goroutines do by themselves) -/
-def internalSucc (d : DCfg) (relAll : Bool) (s : St) : List St :=
-  let idxs := List.range s.thr.length
+def internalSucc (d : DCfg) (relAll : Bool) (holds : Holds) (s : St) : List St :=
+  let idxs := match lockOwner holds s with
+    | some t => [t]
+    | none => List.range s.thr.length
   idxs.flatMap fun t =>
     match s.thr[t]? with
     | none => []
     | some th =>
-      let taus := (step d.cfg s t .tau).toList
+      let taus := if isHeld holds t th.pc then [] else (step d.cfg s t .tau).toList
       let starts := if s.spawn > 0 ∧ firstIdleFrom s (d.P + 1) = some t then (step d.cfg s t .start).toList else []
-      let confs := if th.pc = .bConfirm then idxs.filterMap (fun u => step d.cfg s t (.confirm u)) else []
+      let confs := if th.pc = .bConfirm then (List.range s.thr.length).filterMap (fun u => step d.cfg s t (.confirm u)) else []
       let cbs :=
         if inCallback th.pc then
           if d.auto then (step d.cfg s t (.cbEnd (d.pm > 0 ∧ th.reg.headD 0 % d.pm = 3))).toList
@@ -60,15 +113,18 @@ def internalSucc (d : DCfg) (relAll : Bool) (s : St) : List St :=
       (taus ++ starts ++ confs ++ cbs).map normGhost
 
 /-- worklist closure up to quiescence; returns (quiescent states, fuel exhausted) -/
-def closure (succ : St → List St) : Nat → List St → List St → List St → List St × Bool
+def closureGo (succ : St → List St) : Nat → List St → Std.HashSet St → List St → List St × Bool
   | 0, wl, _, out => (out, !wl.isEmpty)
   | _ + 1, [], _, out => (out, false)
   | fuel + 1, s :: wl, vis, out =>
-    if vis.contains s then closure succ fuel wl vis out
+    if vis.contains s then closureGo succ fuel wl vis out
     else
       let nx := succ s
-      if nx.isEmpty then closure succ fuel wl (s :: vis) (s :: out)
-      else closure succ fuel (nx ++ wl) (s :: vis) out
+      if nx.isEmpty then closureGo succ fuel wl (vis.insert s) (s :: out)
+      else closureGo succ fuel (nx ++ wl) (vis.insert s) out
+
+def closure (succ : St → List St) (fuel : Nat) (wl : List St) (_vis : List St) (out : List St) : List St × Bool :=
+  closureGo succ fuel wl {} out
 
 def showList (sep : String) (l : List Nat) : String :=
   if l.isEmpty then "-" else sep.intercalate (l.map toString)
@@ -80,9 +136,11 @@ def insertStr (x : String) : List String → List String
 def sortStr (l : List String) : List String := l.foldr insertStr []
 
 /-- the visible part of a quiescent configuration, printed like the harness prints it -/
-def visible (d : DCfg) (finSeen : List Nat) (s : St) : String :=
-  let ws := (s.thr.take (d.P + 1)).map fun th => classOf th.pc
-  let fls := sortStr (((s.thr.drop (d.P + 1)).filter fun th => th.pc ≠ .idle).map fun th => classOf th.pc)
+def visible (d : DCfg) (holds : Holds) (bholder : Option Nat) (finSeen : List Nat) (s : St) : String :=
+  let ws := ((s.thr.take (d.P + 1)).zipIdx).map fun (th, t) =>
+    if bholder = some t then "bhold" else if isHeld holds t th.pc then "hold" else classOf th.pc
+  let fls := sortStr (((s.thr.drop (d.P + 1)).filter fun th => th.pc ≠ .idle).map fun th =>
+    if isHeld holds bgHold th.pc then "hold" else classOf th.pc)
   let cbs := sortStr ((s.thr.filter fun th => inCallback th.pc).map fun th => showList "." th.reg)
   let nf := sortNat (s.finished.filter fun x => !finSeen.contains x)
   s!"w={",".intercalate ws} fl={if fls.isEmpty then "-" else ",".intercalate fls} c={showList "," s.container} " ++
@@ -98,11 +156,16 @@ def dedup (l : List St) : List St := l.foldl (fun acc s => if acc.contains s the
 
 structure DState where
   states : List St
+  holds  : Holds := []
+  bholder : Option Nat := none   -- the caller that holds pe.wgBarrier for the harness
   finSeen : List Nat := []
   mon    : Spec.Mon := {}
   dead   : Bool := false     -- the model lost track in this section (already reported)
+  stuckSeen : Bool := false
+  lastCont : Option (List Nat) := some []   -- the container the implementation showed on the previous line
+  lastWs : Option (List String × List String × String) := none   -- caller classes, flusher classes, cmd of the previous line
 
-def fuel : Nat := 200000
+def fuel : Nat := 3000000
 
 /-- end every callback that is running in `s` (the harness releases all gated callbacks at a quiescent point) -/
 def releaseAll (d : DCfg) (s : St) : St :=
@@ -117,37 +180,37 @@ def anyCallback (s : St) : Bool := s.thr.any fun th => inCallback th.pc
 def drainRounds (d : DCfg) : Nat → List St → List St × Bool
   | 0, ss => (ss, true)
   | n + 1, ss =>
-    let (q, ex) := closure (internalSucc d false) fuel ss [] []
+    let (q, ex) := closure (internalSucc d false []) fuel ss [] []
     if ex then (q, true)
     else if q.any anyCallback then drainRounds d n (dedupSt (q.map fun s => if anyCallback s then releaseAll d s else s))
     else (q, false)
 
 /-- apply the harness action of one line to one configuration: `none` = the model says "skip" -/
-def applyOp (d : DCfg) (s : St) : List String → Option (List St × Bool × String)
+def applyOp (d : DCfg) (holds : Holds) (bholder : Option Nat) (s : St) : List String → Option (List St × Bool × String)
   | ["add", w, x] => do
     let w ← w.toNat?; let x ← x.toNat?
     if w ≥ d.P then none else
     let s' ← step d.cfg s w (.add x)
-    let (q, ex) := closure (internalSucc d false) fuel [s'] [] []
+    let (q, ex) := closure (internalSucc d false holds) fuel [s'] [] []
     pure (q, ex, "")
   | ["flush", w] => do
     let w ← w.toNat?
     if w ≥ d.P then none else
     let s' ← step d.cfg s w .flush
-    let (q, ex) := closure (internalSucc d false) fuel [s'] [] []
+    let (q, ex) := closure (internalSucc d false holds) fuel [s'] [] []
     pure (q, ex, "")
   | ["wait", w] => do
     let w ← w.toNat?
     if w ≥ d.P then none else
     let s' ← step d.cfg s w .wait
-    let (q, ex) := closure (internalSucc d false) fuel [s'] [] []
+    let (q, ex) := closure (internalSucc d false holds) fuel [s'] [] []
     pure (q, ex, "")
   | ["tick"] =>
     match (List.range s.thr.length).find? fun t => (s.thr[t]?.map fun th => classOf th.pc) = some "select" with
     | none => some ([s], false, "d=0 ")
     | some t => do
       let s' ← step d.cfg s t .tick
-      let (q, ex) := closure (internalSucc d false) fuel [s'] [] []
+      let (q, ex) := closure (internalSucc d false holds) fuel [s'] [] []
       pure (q, ex, "d=1 ")
   | ["rel", x, how] => do
     let x ← x.toNat?
@@ -157,13 +220,44 @@ def applyOp (d : DCfg) (s : St) : List String → Option (List St × Bool × Str
       | none => false
     if d.auto then none else
     let s' ← (step d.cfg s t (.cbEnd (how = "panic"))).map normGhost
-    let (q, ex) := closure (internalSucc d false) fuel [s'] [] []
+    let (q, ex) := closure (internalSucc d false holds) fuel [s'] [] []
+    pure (q, ex, "")
+  | ["hold", "bg", pt] => if pt = "fremoved" then some ([s], false, "") else none
+  | ["unhold", "bg"] =>
+    let (q, ex) := closure (internalSucc d false holds) fuel [s] [] []
+    some (q, ex, "")
+  | ["hold", w, pt] => do
+    let w ← w.toNat?
+    if w ≥ d.P ∨ ¬ (["full", "notfull", "removed", "fremoved"].contains pt) then none else
+    if (s.thr[w]?.map (·.pc)) ≠ some Pc.idle then none else
+    pure ([s], false, "")
+  | ["unhold", w] => do
+    let w ← w.toNat?
+    if w ≥ d.P then none else
+    -- `holds` already has caller w removed (runLine)
+    let (q, ex) := closure (internalSucc d false holds) fuel [s] [] []
+    pure (q, ex, "")
+  | ["bhold", w] => do
+    let w ← w.toNat?
+    if w ≥ d.P ∨ bholder.isSome ∨ s.barrier then none else
+    if (s.thr[w]?.map (·.pc)) ≠ some Pc.idle then none else
+    pure ([{ s with barrier := true }], false, "")
+  | ["brel", f] => do
+    let w ← bholder
+    let s0 := { s with barrier := false }
+    let s1 ← (match f with
+      | "wait" => step d.cfg s0 w .wait
+      | "flush" => step d.cfg s0 w .flush
+      | "none" => some s0
+      | _ => none)
+    let (q, ex) := closure (internalSucc d false holds) fuel [s1] [] []
     pure (q, ex, "")
   | ["t+", n] => do
     let n ← n.toNat?
     let s' ← step d.cfg s 0 (.advance n)
     pure ([s'], false, "")
   | ["drain"] => do
+    let s := if bholder.isSome then { s with barrier := false } else s
     let (q1, ex1) := drainRounds d 64 [s]
     let q1w := q1.filterMap fun s1 => step d.cfg s1 d.P .wait
     let (q2, ex2) := drainRounds d 64 q1w
@@ -176,7 +270,15 @@ def mkCfg (cfgToks : List String) : DCfg :=
   { cfg := { full := full, interval := kvNat cfgToks "iv" 10, fixed := true },
     P := kvNat cfgToks "P" 1, auto := kvNat cfgToks "gate" 0 = 0, pm := kvNat cfgToks "pm" 0 }
 
-def callOf : List String → Spec.Call
+def opCaller : List String → Option Nat
+  | [op, w] => if op = "flush" ∨ op = "wait" ∨ op = "bhold" then w.toNat? else none
+  | [op, w, _] => if op = "add" ∨ op = "hold" then w.toNat? else none
+  | _ => none
+
+def callOf (bholder : Option Nat) : List String → Spec.Call
+  | ["brel", "wait"] => match bholder with
+    | some w => .wait w
+    | none => .other
   | ["add", w, x] => match w.toNat?, x.toNat? with
     | some w, some x => .add w x
     | _, _ => .other
@@ -185,48 +287,135 @@ def callOf : List String → Spec.Call
     | none => .other
   | _ => .other
 
-def runLine (d : DCfg) (sec : Nat) (acc : Report × DState) (l : Line) : Report × DState := Id.run do
+/-- holds after this line (only if the implementation did not skip it) -/
+def holdsAfter (holds : Holds) : List String → Holds
+  | ["hold", "bg", pt] => holds.filter (fun h => h.1 != bgHold) ++ [(bgHold, pt)]
+  | ["unhold", "bg"] => holds.filter (fun h => h.1 != bgHold)
+  | ["hold", w, pt] => match w.toNat? with
+    | some w => holds.filter (fun h => h.1 != w) ++ [(w, pt)]
+    | none => holds
+  | ["unhold", w] => match w.toNat? with
+    | some w => holds.filter (fun h => h.1 != w)
+    | none => holds
+  | ["drain"] => []
+  | _ => holds
+
+def bytesOf (kind : String) (l : List Nat) : Int :=
+  if kind = "chunk" then (((l.map chunkSize).sum : Nat) : Int) else (l.length : Int)
+
+def runLine (d : DCfg) (kind : String) (max : Int) (sec : Nat) (acc : Report × DState) (l : Line) : Report × DState := Id.run do
   let (r0, ds0) := acc
   let mut r := { r0 with ops := r0.ops + 1 }
   let mut ds := ds0
   let impl := joinSp l.obs
   r := r.addCover ("op-" ++ l.op.headD "?")
+  if impl.startsWith "stuck" then
+    -- the harness watchdog: some goroutine kept moving (or the harness lost track) for seconds of real time
+    if !ds.dead then
+      r := r.violation sec l.idx s!"the operation never reached quiescence (livelock): {impl}; tasks accepted by Add and not executed: {showList "," (ds.mon.issued.filter fun x => !ds.mon.fin.contains x)}"
+    return (r, { ds with dead := true, stuckSeen := true })
   if impl.startsWith "TIMEOUT" ∨ impl.startsWith "PANIC" ∨ impl = "bad-op" then
     r := r.mismatch sec l.idx "a quiescent observation" impl
     return (r, { ds with dead := true })
+  let holds' := if impl = "skip" then ds.holds else holdsAfter ds.holds l.op
+  let bholder' : Option Nat := if impl = "skip" then ds.bholder else
+    match l.op with
+    | ["bhold", w] => w.toNat?
+    | ["brel", _] => none
+    | ["drain"] => none
+    | _ => ds.bholder
+  -- tokens that carry the event order inside the line are for the monitor only
+  let obsCmp := l.obs.filter fun t => !(t.startsWith "ends=" || t.startsWith "wret=")
+  let implCmp := joinSp obsCmp
   -- (a) the monitor, on the implementation's observation alone
   if impl ≠ "skip" then
     let ws := ((kvStr l.obs "w" "").splitOn ",")
     let idle := fun (w : Nat) => ws[w]? = some "idle"
     let nf := parseNats (kvStr l.obs "nf" "-")
-    let (m', msgs) := ds.mon.step (callOf l.op) idle nf
+    let ends := parseNats (kvStr l.obs "ends" "-")
+    let wret := ((kvStr l.obs "wret" "").splitOn ",").filterMap fun t =>
+      match t.splitOn ":" with
+      | [w, k] => match w.toNat?, k.toNat? with
+        | some w, some k => some (w, k)
+        | _, _ => none
+      | _ => none
+    -- what had been executed when the Wait of caller w returned (all of this line's ends if no order is known)
+    let endsAt := fun (w : Nat) => match wret.find? (fun p => p.1 == w) with
+      | some p => ends.take p.2
+      | none => nf
+    let (m', msgs) := ds.mon.step (callOf ds.bholder l.op) idle nf endsAt
+    if wret.any (fun p => p.2 < ends.length) then r := r.addCover "wait-returned-before-last-callback-end-of-line"
     for msg in msgs do r := r.violation sec l.idx msg
     ds := { ds with mon := m' }
     for c in ws do r := r.addCover ("caller-" ++ c)
     for c in (kvStr l.obs "fl" "-").splitOn "," do r := r.addCover ("flusher-" ++ c)
+    let cont := parseNats (kvStr l.obs "c" "-")
+    -- "executed when the size threshold is reached": at rest (nobody inside the critical section) the
+    -- container never holds a full batch
+    if max ≥ 1 ∧ bytesOf kind cont ≥ max ∧ !(ws.contains "hold") then
+      r := r.violation sec l.idx s!"the size threshold is reached ({kind} container holds {bytesOf kind cont} >= max {max}: {showList "," cont}) but the batch was not taken out for execution"
+    -- "executed on the periodic flush": while tasks are pending in the container and every caller is back, a
+    -- background flusher must exist (parked in its select, or busy)
+    if cont.length > 0 ∧ ws.all (· == "idle") ∧ kvStr l.obs "fl" "-" = "-" then
+      r := r.violation sec l.idx s!"tasks {showList "," cont} are pending in the container but no background flusher exists: they will not be executed on the periodic flush"
     if l.op = ["drain"] then
       let all := parseNats (kvStr l.obs "all" "-")
       for msg in ds.mon.final all do r := r.violation sec l.idx msg
+      -- every gated callback was released, every hold released, a final Wait issued: whoever is not back is stuck
+      for msg in ds.mon.stuckAtEnd (fun w => ws[w]?.getD "?") d.P do r := r.violation sec l.idx msg
       if kvStr l.obs "c" "-" ≠ "-" then r := r.violation sec l.idx s!"tasks left in the container after the final Wait: {kvStr l.obs "c" "-"}"
       if nf.length > 0 then r := r.addCover "drain-executed" nf.length
     if kvStr l.obs "g" "1" = "0" ∧ ds.mon.issued.length > 0 then r := r.addCover "flusher-has-quit"
     if ws.contains "spin" then r := r.addCover "wait-spins-on-inflight"
+    -- input classes: where the add lands relative to the threshold (from the implementation's own container)
+    match l.op, ds.lastCont with
+    | ["add", _, x], some c0 =>
+      match x.toNat? with
+      | some x =>
+        let after := bytesOf kind (c0 ++ [x])
+        if after + 1 = max then r := r.addCover s!"add-lands-at-{kind}-threshold-1"
+        if after = max then r := r.addCover s!"add-lands-at-{kind}-threshold"
+        if after = max + 1 then r := r.addCover s!"add-lands-at-{kind}-threshold+1"
+        if after > max + 1 ∧ max ≥ 1 then r := r.addCover s!"add-lands-above-{kind}-threshold+1"
+        if kind = "chunk" ∧ chunkSize x = 0 then r := r.addCover "chunk-task-of-0-bytes"
+      | none => pure ()
+    | _, _ => pure ()
+    ds := { ds with lastCont := if ws.contains "hold" ∨ ws.contains "alock" then none else some cont }
+    -- input class: a tick / Flush / quit check waits for the lock that a producer holds inside Add
+    let fls := (kvStr l.obs "fl" "-").splitOn ","
+    if ws.contains "hold" ∧ fls.contains "flock" then r := r.addCover "tick-taken-while-caller-holds-lock"
+    if ws.contains "hold" ∧ ws.contains "flock" then r := r.addCover "flush-or-wait-while-caller-holds-lock"
+    if ws.contains "hold" ∧ ws.contains "alock" then r := r.addCover "add-while-caller-holds-lock"
+    if fls.contains "hold" ∧ ws.contains "alock" then r := r.addCover "add-while-flusher-holds-lock-in-tick-flush"
+    -- input class: somebody is parked at the wait-group barrier (before wg.Add) when the barrier is released
+    if l.op.head? = some "brel" then
+      match ds.lastWs with
+      | some (ws0, fls0, cmd0) =>
+        if fls0.contains "enter" then r := r.addCover s!"brel-{l.op.getD 1 "?"}-while-flusher-parked-before-wg.Add"
+        if ws0.contains "enter" then r := r.addCover s!"brel-{l.op.getD 1 "?"}-while-Flush-caller-parked-before-wg.Add"
+        if fls0.contains "enter" ∧ ws0.contains "confirm" ∧ cmd0 = "0" then r := r.addCover s!"brel-{l.op.getD 1 "?"}-while-handed-over-batch-not-in-wait-group"
+      | none => pure ()
+    ds := { ds with lastWs := some (ws, fls, kvStr l.obs "cmd" "0") }
   else r := r.addCover "skip"
   -- (b) trace inclusion in the model
-  if ds.dead then return (r, ds)
+  if ds.dead then return (r, { ds with holds := holds', bholder := bholder' })
+  let holdsOp := match l.op with | ["unhold", _] => holds' | ["drain"] => [] | _ => ds.holds
   let mut next : List St := []
   let mut exhausted := false
   let mut sample := ""
+  let busy : Bool := match opCaller l.op with
+    | some w => ds.bholder = some w     -- that caller is parked inside the barrier
+    | none => false
   for s in ds.states do
-    match applyOp d s l.op with
+    match (if busy then none else applyOp d holdsOp ds.bholder s l.op) with
     | none =>
       if impl = "skip" then next := s :: next else sample := "skip"
     | some (qs, ex, pre) =>
       exhausted := exhausted || ex
       for q in qs do
-        let v := pre ++ visible d ds.finSeen q
+        let v := pre ++ visible d holds' bholder' ds.finSeen q
         let v := if l.op = ["drain"] then v ++ " all=" ++ showList "," (sortNat q.finished) else v
-        if v = impl then next := q :: next else sample := v
+        if v = implCmp then next := q :: next else sample := v
   next := dedup next
   if exhausted then
     r := r.mismatch sec l.idx "state space exhausted the driver's fuel" impl
@@ -237,19 +426,29 @@ def runLine (d : DCfg) (sec : Nat) (acc : Report × DState) (l : Line) : Report 
   if next.length > 1 then r := r.addCover "ambiguous-schedule"
   let nfNow := parseNats (kvStr l.obs "nf" "-")
   -- coverage of model branches
-  match next.head? with
-  | some q =>
+  let isUnhold : Bool := l.op.head? == some "unhold"
+  match ds.states.head?, next.head? with
+  | some q0, some q =>
     if q.lost.length > 0 then r := r.addCover "panicked-batch"
     if q.spawn = 0 ∧ q.guarded = false ∧ q.added.length > 0 then r := r.addCover "model-flusher-quit"
-  | none => pure ()
-  return (r, { ds with states := next, finSeen := if impl = "skip" then ds.finSeen else ds.finSeen ++ nfNow })
+    -- the scenario class of seeded C11-1 / mutation M4: a flusher that is past the idle bound took a tick while a
+    -- producer was handing over a batch (inflight > 0), and must have stayed
+    if isUnhold ∧ (q0.thr.any fun th => th.pc == Pc.aInc || th.pc == Pc.aGuard true) ∧
+        (q0.thr.any fun th => (th.pc == Pc.fLock Ctx.tick || th.pc == Pc.qLock) && decide (q0.now - th.last > d.cfg.interval * idleRound)) then
+      r := r.addCover "idle-quit-tick-races-handover"
+      if q.guarded then r := r.addCover "idle-quit-refused-because-inflight"
+    if isUnhold ∧
+        (q0.thr.any fun th => th.pc == Pc.fLock Ctx.tick && decide (q0.now - th.last = d.cfg.interval * idleRound)) then
+      r := r.addCover "tick-at-exactly-idleRound-intervals-races-add"
+  | _, _ => pure ()
+  return (r, { ds with states := next, holds := holds', bholder := bholder', finSeen := if impl = "skip" then ds.finSeen else ds.finSeen ++ nfNow })
 
 def runSection (r : Report) (s : Section) : Report :=
   let d := mkCfg s.cfg
   let r := r.addCover (if d.auto then "section-ungated" else "section-gated")
   let r := r.addCover ("kind-" ++ kvStr s.cfg "kind" "bulk")
   let st0 : DState := { states := [init (d.P + 1 + 4)] }
-  (s.lines.foldl (runLine d s.idx) (r, st0)).1
+  (s.lines.foldl (runLine d (kvStr s.cfg "kind" "bulk") (kvInt s.cfg "max" 2) s.idx) (r, st0)).1
 
 def driver (secs : List Section) : Report := secs.foldl runSection {}
 
